@@ -186,6 +186,11 @@ pub fn to_expr(e: &Value, env: &Env) -> Result<Expr, String> {
 
 /// The exhaustive table of ExprGen: column c of row i (0-based) = vals[c][(i / strides[c]) % len(vals[c])].
 pub fn table_batch(t: &Value, nullable: bool) -> (SchemaRef, RecordBatch) {
+    table_batch_enc(t, nullable, "utf8")
+}
+
+/// `enc` = physical encoding of the string columns: "utf8" | "view" (Utf8View) | "dict" (Dictionary(Int32, Utf8))
+pub fn table_batch_enc(t: &Value, nullable: bool, enc: &str) -> (SchemaRef, RecordBatch) {
     let kinds: Vec<&str> = t["schema"].as_array().unwrap().iter().map(|k| k.as_str().unwrap()).collect();
     let strides: Vec<usize> = t["strides"].as_array().unwrap().iter().map(|s| s.as_u64().unwrap() as usize).collect();
     let nrows = *strides.last().unwrap();
@@ -202,10 +207,17 @@ pub fn table_batch(t: &Value, nullable: bool) -> (SchemaRef, RecordBatch) {
             "i16" => Arc::new(Int16Array::from(ints.iter().map(|x| x.map(|v| v as i16)).collect::<Vec<_>>())),
             "i32" => Arc::new(Int32Array::from(ints.iter().map(|x| x.map(|v| v as i32)).collect::<Vec<_>>())),
             "b" => Arc::new(BooleanArray::from(ints.iter().map(|x| x.map(|v| v == 1)).collect::<Vec<_>>())),
-            "s" => Arc::new(StringArray::from(ints.iter().map(|x| x.map(|v| STR_POOL[v as usize])).collect::<Vec<_>>())),
+            "s" => {
+                let strs = ints.iter().map(|x| x.map(|v| STR_POOL[v as usize])).collect::<Vec<_>>();
+                match enc {
+                    "view" => Arc::new(StringViewArray::from(strs)),
+                    "dict" => Arc::new(strs.into_iter().collect::<DictionaryArray<arrow::datatypes::Int32Type>>()),
+                    _ => Arc::new(StringArray::from(strs)),
+                }
+            }
             other => panic!("unknown kind {other}"),
         };
-        fields.push(Field::new(format!("c{}", c + 1), kind_dt(k), nullable));
+        fields.push(Field::new(format!("c{}", c + 1), arr.data_type().clone(), nullable));
         cols.push(arr);
     }
     let schema = Arc::new(Schema::new(fields));
@@ -220,6 +232,10 @@ pub fn code_at(a: &ArrayRef, i: usize, env: &Env) -> Result<i64, String> {
     }
     let s = |x: &str| STR_POOL.iter().position(|p| *p == x && !p.is_empty()).map(|ix| ix as i64).ok_or_else(|| format!("string {x:?} outside the pool"));
     match a.data_type() {
+        DataType::Dictionary(_, v) => {
+            let c = arrow::compute::cast(a, v.as_ref()).map_err(|e| e.to_string())?;
+            code_at(&c, i, env)
+        }
         DataType::Int64 => Ok(a.as_any().downcast_ref::<Int64Array>().unwrap().value(i)),
         DataType::Int32 => Ok(a.as_any().downcast_ref::<Int32Array>().unwrap().value(i) as i64),
         DataType::Int16 => Ok(a.as_any().downcast_ref::<Int16Array>().unwrap().value(i) as i64),
